@@ -174,3 +174,38 @@ def check(cx):
                     has = has and bool(st)
                 cx.verdict(has, r5, v["name"], f.where(), "arm present" + (", creates unique index" if v["name"] != "ForeignKey" else ""),
                            "the %s arm of add_constraint is missing or no longer creates the unique index / non-null marks" % v["name"])
+
+    # ---- C07.6 the three key builders of a unique index agree on the key layout ------------------------------------
+    r6 = cx.rule("C07.6", "SIB: the uniqueness probe (ConstraintValidator::search_index), the DML entry builder "
+                 "(DmlExecutor::build_index_entry) and the bulk loader (DdlExecutor::populate_index) each build the key in a "
+                 "loop over the *declared* indexed-column list (a `&[usize]` slice iterator fed by indexed_column_ids() or by "
+                 "the parameter holding it), pushing inside that loop: stored key and probe key list the columns in the same "
+                 "order", floor=3)
+    from axvlib.core import natural_loops
+    builders = [(si.id if si else None, "search_index"), (DML + "::build_index_entry", "build_index_entry"),
+                ("runtime::ddl::DdlExecutor::populate_index", "populate_index")]
+    for fid, nm in builders:
+        g = p.fns.get(fid) if fid else None
+        if g is None:
+            cx.bad(r6, "anchor-missing:" + nm, "", "key builder %s not found" % nm)
+            continue
+        srcs = {op_local({"c": c.dst}) for c in g.calls() if c.callee.endswith("::indexed_column_ids")}
+        srcs |= {i for i in range(1, g.nargs + 1) if g.rec["locals"][i].replace(" ", "") in ("&[usize]", "&'a[usize]")}
+        good = False
+        for h, body in natural_loops(g):
+            nx = [c for c in g.calls() if c.bb in body and c.defn == "std::iter::Iterator::next" and
+                  any("slice::Iter<'_, usize>" in a for a in c.gargs)]
+            fed = [c for c in nx if srcs & g.dep_closure(op_local(c.args[0]))]
+            adds = [c for c in g.calls() if c.bb in body and (c.callee.endswith("Vec::<T, A>::push") or c.callee.endswith("::extend_from_slice"))]
+            if fed and adds:
+                good = True
+        cx.verdict(good, r6, nm, g.where(), "key built in a loop over the declared column list",
+                   "%s does not build its key by walking the declared indexed-column list: for an index declared in another "
+                   "order than the table columns (UNIQUE(b, a)) the stored key and the probe key differ and duplicates are "
+                   "accepted" % g.id)
+
+    # ---- C07.7 (construct shared with C13.1) -----------------------------------------------------------------------
+    from . import c13
+    cx.include(c13, {"C13.1"}, "C07.7", "shared with C13.1: VACUUM forgets the aborted ids, so it must persist the removal of a "
+               "rolled-back deletion mark (index entries never shrink, so they are written back only for that reason); a mark "
+               "left on a unique-index entry turns into a committed delete and the key is accepted a second time", floor=3)
